@@ -325,6 +325,15 @@ func applyOp(s *state.StateDB, f []string) string {
 	return ""
 }
 
+// isCheckpoint: actions after which a quiet history reads the getters.
+func isCheckpoint(op string) bool {
+	switch op {
+	case "fi", "rt", "cm", "dm":
+		return true
+	}
+	return false
+}
+
 func isWrite(op string) bool {
 	switch op {
 	case "ca", "ab", "sb", "bl", "no", "co", "st", "sd":
@@ -358,10 +367,11 @@ type sut struct {
 	revT3    bool         // a touch of the existing empty account 0x03 was reverted
 	disarmed map[int]bool // accounts with a reverted touch that found the callback armed
 	mixed    map[int]bool // non-suicided tombstones that were dirty when Finalise/Commit(false) ran
+	lostCp   map[int]bool // (a Copy) accounts whose cached object in the original was disarmed and outside the dirty set (F2): dropped by Copy
 }
 
 func newSut(s *state.StateDB, base common.Hash) *sut {
-	return &sut{s: s, base: base, snapAt: map[int]int{}, snapView: map[int]string{}, revWr: map[int]bool{}, disarmed: map[int]bool{}, mixed: map[int]bool{}}
+	return &sut{s: s, base: base, snapAt: map[int]int{}, snapView: map[int]string{}, revWr: map[int]bool{}, disarmed: map[int]bool{}, mixed: map[int]bool{}, lostCp: map[int]bool{}}
 }
 
 func cloneMap(m map[int]bool) map[int]bool {
@@ -392,6 +402,8 @@ type hist struct {
 	kind      string
 	nFind     int
 	dropLast  bool
+	quiet     bool // "cold cache" history: the getters are only read at Finalise/IntermediateRoot/Commit/reopen/Reset/dm, so that
+	// code paths depending on values that were never read through this StateDB (storage cache, code cache) are exercised
 	mayPanic  bool // malformed histories (dead revert ids, overdrafts, negative amounts) are expected to panic
 }
 
@@ -516,6 +528,9 @@ func (h *hist) do(act string) bool {
 		return false
 	}
 	f := strings.Split(act, ":")
+	if f[0] == "q" {
+		h.quiet = true
+	}
 	h.run.Count("act:" + f[0])
 	h.run.Current(h.input() + " " + act)
 	u := h.cur
@@ -565,6 +580,12 @@ func (h *hist) do(act string) bool {
 			o.stale = u.stale
 			o.noAux = u.noAux || u.cmPend
 			o.revWr, o.disarmed, o.mixed, o.revT3 = cloneMap(u.revWr), cloneMap(u.disarmed), cloneMap(u.mixed), u.revT3
+			o.lostCp = cloneMap(u.lostCp)
+			for x := 1; x <= nAddr; x++ { // flags only, no getter: what Copy drops because of F2
+				if h.disarmedFamily(u, []int{x}) {
+					o.lostCp[x] = true
+				}
+			}
 			h.oth = o
 			h.liveOth = nil
 			return "ok"
@@ -597,6 +618,8 @@ func (h *hist) do(act string) bool {
 			}
 			u = h.cur
 			h.live = nil
+			return "ok"
+		case "dm", "q":
 			return "ok"
 		case "ne":
 			s2, _ := state.New(common.Hash{}, state.NewDatabase(aquadb.NewMemDatabase()))
@@ -651,6 +674,64 @@ func (h *hist) do(act string) bool {
 		}
 		h.done = true
 		return false
+	}
+	if h.quiet && !isCheckpoint(f[0]) {
+		// no getter is called: only the return value is observed; bookkeeping of the erased history continues
+		h.obs = append(h.obs, ret+"/~")
+		switch f[0] {
+		case "sn":
+			id := atoi(ret)
+			u.snapAt[id] = len(u.surv)
+			h.live = append(h.live, id)
+		case "rv":
+			id := atoi(f[1])
+			pos := u.snapAt[id]
+			for _, o := range u.surv[pos:] {
+				if isWrite(o.f[0]) {
+					x := atoi(o.f[1])
+					if o.journ {
+						u.revWr[x] = true
+					}
+					if o.aTouch {
+						u.disarmed[x] = true
+					}
+					if o.touch3 {
+						u.revT3 = true
+					}
+				}
+			}
+			kept := []survOp{}
+			for _, o := range u.surv[pos:] {
+				if o.f[0] == "pp" {
+					kept = append(kept, o)
+				}
+			}
+			u.surv = append(u.surv[:pos:pos], kept...)
+			for k := range u.snapAt {
+				if k >= id {
+					delete(u.snapAt, k)
+				}
+			}
+			nl := h.live[:0]
+			for _, k := range h.live {
+				if k < id {
+					nl = append(nl, k)
+				}
+			}
+			h.live = nl
+		}
+		if isWrite(f[0]) || f[0] == "rf" || f[0] == "lg" || f[0] == "pi" || f[0] == "pp" {
+			if u.cmPend {
+				u.stale = true
+			}
+			u.cmPend = false
+			u.surv = append(u.surv, so)
+		}
+		if f[0] == "cp" {
+			h.oth.lastView = ""
+		}
+		u.lastView = ""
+		return true
 	}
 	view := dumpView(u.s, &bad)
 	ob := ret + "/" + view + ";" + dumpInternal(u.s)
@@ -836,13 +917,16 @@ func (h *hist) do(act string) bool {
 			//  F1  a pre-existing empty account deleted by Finalise(true) although only reverted operations wrote it
 			//  F4  the same for a reverted touch of 0x03
 			okAll := len(d) > 0 && auxOf(rv) == auxOf(view)
-			nF1, nF2, nF4 := 0, 0, 0
+			nF1, nF2, nF3, nF4 := 0, 0, 0, 0
 			for _, x := range d {
 				present, deleted, suicided, _, _ := u.s.VerifObj(addr(x))
 				shape := f[1] == "1" && acctField(view, x) == fmt.Sprintf("%d:-", x) && strings.HasPrefix(acctField(rv, x), fmt.Sprintf("%d:0,0,-,s,", x)) && present && deleted && !suicided
 				switch {
-				case h.disarmedFamily(u, []int{x}):
+				case h.disarmedFamily(u, []int{x}) || u.lostCp[x]:
 					nF2++
+				case u.mixed[x]:
+					nF3++ // x was deleted as empty and re-inserted by Finalise(false): from then on its existence depends on whether a
+					// reverted re-creation dropped the tombstone (history) — every later difference at x is this defect
 				case shape && u.revWr[x]:
 					nF1++
 				case shape && x == 3 && u.revT3:
@@ -852,6 +936,8 @@ func (h *hist) do(act string) bool {
 				}
 			}
 			switch {
+			case okAll && nF3 > 0:
+				h.violate(kindF3, sigF3, fmt.Sprintf("%s: accounts %v: an account deleted as empty and re-inserted by Finalise(false) exists again (F3 %d, F2 %d, F1 %d, F4 %d)", act, d, nF3, nF2, nF1, nF4))
 			case okAll && nF2 > 0:
 				h.violate(kindF2, sigF2, fmt.Sprintf("%s: accounts %v: cached without onDirty callback and outside the dirty set after a reverted touch (F2 %d, F1 %d, F4 %d); history and erased history differ there", act, d, nF2, nF1, nF4))
 			case okAll && nF1 > 0:
@@ -977,6 +1063,7 @@ func pickRefund(r *hx.Rng) uint64 {
 var codes = []string{"-", "00", "60ff", "6001600155", "fe"}
 
 type genCfg struct {
+	quiet     bool
 	malformed bool
 	mixed     bool
 	d         string // uniform delete-empty flag of the history
@@ -1072,10 +1159,18 @@ func (h *hist) prelude(r *hx.Rng) {
 }
 
 func (h *hist) generate(r *hx.Rng, g genCfg) {
+	if g.quiet && len(h.acts) == 0 {
+		h.do("q")
+	}
+	defer func() {
+		if h.quiet && !h.done {
+			h.do("dm")
+		}
+	}()
 	if h.cur.cmPend && !h.done {
 		h.do(fmt.Sprintf("ro:%d", len(h.committed)-1))
 	}
-	if r.Intn(10) < 7 && len(h.acts) == 0 {
+	if (r.Intn(10) < 7 || g.quiet) && len(h.acts) <= 1 && len(h.committed) == 0 {
 		h.prelude(r)
 	}
 	for len(h.acts) < g.maxActs && !h.done {
@@ -1093,7 +1188,7 @@ func (h *hist) generate(r *hx.Rng, g genCfg) {
 				h.do(fmt.Sprintf("rv:%d", h.live[r.Intn(len(h.live))]))
 			case c < 27 && g.malformed && r.Intn(3) == 0:
 				h.do(fmt.Sprintf("rv:%d", r.Intn(12))) // possibly dead id: panic("revision id cannot be reverted")
-			case c < 30:
+			case c < 30 && !h.quiet:
 				h.do("ne")
 			case c < 33:
 				h.do("cp")
@@ -1111,7 +1206,7 @@ func (h *hist) generate(r *hx.Rng, g genCfg) {
 			h.do("fi:" + h.flag(r, g))
 		case 3, 4, 5, 6:
 			h.do("rt:" + h.flag(r, g))
-			if r.Intn(3) == 0 {
+			if r.Intn(3) == 0 && !h.quiet {
 				h.do("ne")
 			}
 		case 7, 8:
@@ -1142,7 +1237,13 @@ func directed(r *hx.Rng, i int) []string {
 	x := 1 + r.Intn(nAddr)
 	y := 1 + (x % nAddr)
 	d := "1"
-	switch i % 12 {
+	switch i % 14 {
+	case 12: // cold storage: slots that live only in the committed trie are written and reverted without being read first
+		return []string{fmt.Sprintf("no:%d:1", x), fmt.Sprintf("st:%d:0:17", x), fmt.Sprintf("st:%d:2:51", x), "cm:1", []string{"ro:0", "rs:0"}[r.Intn(2)],
+			"sn", fmt.Sprintf("st:%d:0:9", x), "sn", fmt.Sprintf("st:%d:2:0", x), fmt.Sprintf("st:%d:1:4", x), "rv:1", "rv:0", "rt:1", "cm:1", "ro:1"}
+	case 13: // re-creation of an account with pending writes inside a reverted frame, then further writes
+		return []string{fmt.Sprintf("bl:%d:50", x), "cm:1", "ro:0", fmt.Sprintf("no:%d:3", x), fmt.Sprintf("st:%d:1:8", x), "sn", fmt.Sprintf("ca:%d", x),
+			fmt.Sprintf("ab:%d:1", x), "rv:0", fmt.Sprintf("bl:%d:70", x), []string{"rt:1", "cp", "cm:1"}[r.Intn(3)]}
 	case 0: // F1: reverted write to a pre-existing empty account, then Finalise(true)
 		w := []string{fmt.Sprintf("ab:%d:5", x), fmt.Sprintf("no:%d:1", x), fmt.Sprintf("st:%d:1:7", x), fmt.Sprintf("co:%d:60ff", x), fmt.Sprintf("bl:%d:9", x)}[r.Intn(5)]
 		return []string{fmt.Sprintf("ab:%d:0", x), "cm:0", "ro:0", "sn", w, "rv:0", []string{"rt:1", "fi:1", "cm:1"}[r.Intn(3)]}
@@ -1206,6 +1307,10 @@ func main() {
 	dr := rng.Fork(1)
 	for i := 0; i < nDirected; i++ {
 		h := newHist(run, "directed")
+		if (i/14)%2 == 1 {
+			h.kind = "directed+cold"
+			h.do("q")
+		}
 		for _, a := range directed(dr, i) {
 			if !h.do(a) {
 				break
@@ -1213,7 +1318,9 @@ func main() {
 		}
 		// random continuation of the directed prefix (when it did not end in a finding)
 		if !h.done && dr.Bool() {
-			h.generate(dr, genCfg{d: "1", maxActs: len(h.acts) + 15})
+			h.generate(dr, genCfg{d: "1", maxActs: len(h.acts) + 15, quiet: h.quiet})
+		} else if h.quiet && !h.done {
+			h.do("dm")
 		}
 		h.finish()
 	}
@@ -1228,6 +1335,10 @@ func main() {
 			g.mixed, kind = true, "mixed-flags"
 		case c < 37:
 			g.malformed, kind = true, "malformed"
+		}
+		if !g.malformed && gr.Intn(100) < 35 {
+			g.quiet = true
+			kind += "+cold"
 		}
 		h := newHist(run, kind)
 		h.mayPanic = g.malformed
